@@ -307,3 +307,130 @@ def math_vals(rng, s, n, f, count, positive=False):
             v = -v
         c.add(v)
     return sorted({x for x in c if lo <= x <= hi and (not positive or x >= 0)})
+
+# ---------------------------------------------------------------- parsing / formatting
+DIG = '0123456789abcdef'
+def to_radix(x, radix, upper=False):
+    assert x >= 0
+    if x == 0:
+        return '0'
+    s = ''
+    while x:
+        s = DIG[x % radix] + s
+        x //= radix
+    return s.upper() if upper else s
+
+def expand(num, j, radix):
+    """exact expansion of num / 2^j in the radix: (int digits, frac digits) — finite for every radix in {2, 8, 10, 16}"""
+    ip = num >> j
+    fr = num & ((1 << j) - 1)
+    if radix == 10:
+        d = j
+        digits = str(fr * 5 ** j).rjust(j, '0') if j else ''
+    else:
+        bits = {2: 1, 8: 3, 16: 4}[radix]
+        d = (j + bits - 1) // bits
+        digits = to_radix((fr << (d * bits)) >> j, radix).rjust(d, '0') if d else ''
+    return to_radix(ip, radix), digits
+
+def literal_for(rng, s, n, f, radix):
+    """one literal (str) that is interesting for layout (s, n, f) in the radix"""
+    lo, hi = rng_range(s, n)
+    r = rng.random()
+    neg = s and rng.random() < 0.4
+    sign = '-' if neg else rng.choice(['', '', '', '+'])
+    if r < 0.40:
+        # tie-directed: (k + 1/2) * 2^-f exactly, and its neighbourhood
+        k = abs(rand_val(rng, s, n, f, edges(s, n, f)))
+        if rng.random() < 0.2:
+            k = max(0, rng.choice([hi, hi - 1, -lo, -lo - 1, 0, 1, (1 << f) - 1]))
+        ip, fp = expand(2 * k + 1, f + 1, radix)
+        v = rng.random()
+        if v < 0.25:
+            pass                                               # the exact tie
+        elif v < 0.45 and len(fp) > 1:
+            fp = fp[:rng.randint(1, len(fp) - 1)]              # proper prefix of the tie
+        elif v < 0.60 and fp:
+            cut = rng.randint(1, len(fp))
+            d = int(fp[:cut], radix) + rng.choice([-1, 1])
+            if 0 <= d < radix ** cut:
+                fp = to_radix(d, radix).rjust(cut, '0')        # prefix +- one unit in the last place
+        elif v < 0.80:
+            fp = fp + '0' * rng.randint(0, 40) + rng.choice(['1', '0', DIG[radix - 1]])   # a hair above / trailing zeros
+        else:
+            if fp:
+                fp = fp[:-1] + DIG[max(0, int(fp[-1], radix) - 1)] + DIG[radix - 1] * rng.randint(1, 60)   # a hair below
+        lit = ip + '.' + fp
+    elif r < 0.55:
+        # on the grid, with redundant zeros
+        k = abs(rand_val(rng, s, n, f, edges(s, n, f)))
+        ip, fp = expand(k, f, radix)
+        lit = '0' * rng.randint(0, 3) + ip + ('.' + fp + '0' * rng.randint(0, 5) if fp or rng.random() < 0.3 else '')
+    elif r < 0.70:
+        # around the range ends (value hi/2^f, -lo/2^f) +- fractions of an ulp
+        k = max(0, rng.choice([hi, hi + 1, -lo, -lo + 1, -lo - 1, hi - 1, 2 * hi, (hi + 1) << 1]))
+        extra = rng.choice([0, 1, 2, 3])      # quarter-ulps
+        ip, fp = expand(4 * k + extra, f + 2, radix)
+        lit = ip + '.' + fp
+        if rng.random() < 0.3:
+            lit += DIG[rng.randrange(radix)] * rng.randint(1, 30)
+    elif r < 0.85:
+        # random digits, controlled lengths
+        li = rng.choice([0, 1, 2, 5, rng.randint(0, 45), rng.randint(0, 200)])
+        lf = rng.choice([0, 1, 2, 5, rng.randint(0, 45), rng.randint(0, 200)])
+        ip = ''.join(rng.choice(DIG[:radix]) for _ in range(li))
+        fp = ''.join(rng.choice(DIG[:radix]) for _ in range(lf))
+        if radix == 16 and rng.random() < 0.5:
+            ip = ip.upper(); fp = fp.upper()
+        lit = ip + (('.' + fp) if lf or rng.random() < 0.3 else '')
+    else:
+        # small values: many leading fractional zeros
+        z = rng.randint(0, f // 3 + 40)
+        lit = rng.choice(['0', '']) + '.' + '0' * z + ''.join(rng.choice(DIG[:radix]) for _ in range(rng.randint(1, 50)))
+    return sign + lit
+
+MALFORMED = ['', '.', '-', '+', '+-1', '-+1', '--1', '1.2.3', '..', '1..', '1-', '1+2', '1.-2', ' 1', '1 ', '1_0', '0x10', '1e5', 'abc', '12a',
+             '1.2a', '１', 'é', '1é', '\x001', '1\x00', '-.', '+.', '.-1', 'NaN', 'inf', '1,5', '-', '0b1', '９', '1\n', '\t1']
+def malformed(rng, radix):
+    r = rng.random()
+    if r < 0.6:
+        return rng.choice(MALFORMED).encode('utf-8')
+    if r < 0.8:
+        # radix-foreign digit inside a valid literal
+        base = ''.join(rng.choice(DIG[:radix]) for _ in range(rng.randint(1, 10)))
+        bad = rng.choice(DIG[radix:] + 'gxz/:@G`') if radix < 16 else rng.choice('gxz/:@G`')
+        i = rng.randint(0, len(base))
+        return (base[:i] + bad + base[i:]).encode()
+    # raw bytes incl. invalid UTF-8
+    return bytes(rng.getrandbits(8) for _ in range(rng.randint(1, 6)))
+
+FA = ['n', 's<', 's^', 's>', '*<', '*^', '*>', 'e<', 'e^', 'e>', '0>']
+def fmt_spec(rng, kinds):
+    kind = rng.choice(kinds)
+    fa = rng.choice(FA) if rng.random() < 0.5 else 'n'
+    plus, alt, zero = (int(rng.random() < 0.3) for _ in range(3))
+    width = rng.choice(['-', '-', '0', '1', '5', '12', '40', str(rng.randint(0, 140))])
+    prec = rng.choice(['-', '-', '-', '0', '1', '2', '3', '5', '10', '17', '40', str(rng.randint(0, 200))])
+    return [kind, fa, plus, alt, zero, width, prec]
+
+def fmt_vals(rng, s, n, f, count):
+    lo, hi = rng_range(s, n)
+    E = edges(s, n, f)
+    vals = set(E[:: max(1, len(E) // 40)]) | {0, 1, hi, lo, 1 << f if (1 << f) <= hi else 0}
+    for _ in range(count):
+        r = rng.random()
+        if r < 0.3:
+            # decimal ties: k / 2^j shown with j-1 digits ends in 5
+            j = rng.randint(1, min(f, 20)) if f else 0
+            v = rng.randint(0, 1 << min(n - 1, j + 8)) << (f - j) if f else rng.randint(0, hi)
+        elif r < 0.5:
+            # very small / scaled remainder near 0 or 2^n (the near-zero cut-off)
+            v = rng.randint(0, 300)
+        elif r < 0.6:
+            v = hi - rng.randint(0, 300)
+        else:
+            v = rand_val(rng, s, n, f, E)
+        if s and rng.random() < 0.4:
+            v = -v
+        vals.add(clip(s, n, v))
+    return sorted(vals)
